@@ -544,6 +544,227 @@ fn replay_case(out: &mut Out, ctl: &Arc<Ctl>, dir: &str, lines: &[String]) {
     drive(out, ctl, dir, 0, &cfg, n, false, &mut next);
 }
 
+// ---------------------------------------------------------------- C08: the pin word, unit level
+
+/// random walks of reader / retirer protocol steps on the real `extent_state` word
+fn word_run(rng: &mut Rng, out: &mut Out) {
+    use feoxdb::core::record::Record;
+    let rec = Record::new(b"pin".to_vec(), vec![1, 2, 3], 7);
+    out.emit("pin new".into(), "ok r=0 b=0 out=none".into());
+    let (mut pins, mut reading, mut w) = (0u32, 0u32, 0u8);
+    let mut content = "data";
+    for _ in 0..rng.range(5, 60) {
+        let mut enabled: Vec<&str> = vec!["acquire"];
+        if pins > 0 { enabled.push("pread"); }
+        if reading > 0 { enabled.push("release"); enabled.push("release"); }
+        enabled.push(match w { 0 => "setBit", 1 => "check", 2 => "mark", 3 => "recheck", _ => "reuse" });
+        let ev = *rng.pick(&enabled);
+        let mut o = "none".to_string();
+        match ev {
+            "acquire" => {
+                if rec.verif_extent_acquire() { pins += 1; } else { o = "refused".into(); }
+            }
+            "pread" => { pins -= 1; reading += 1; o = format!("saw-{}", content); }
+            "release" => { rec.verif_extent_release(); reading -= 1; }
+            "setBit" => { rec.verif_extent_retire(); w = 1; }
+            "check" => {
+                if rec.verif_extent_has_readers() { w = 0; o = "blocked".into(); } else { w = 2; o = "cleared".into(); }
+            }
+            "mark" => { w = 3; content = "markers"; }
+            "recheck" => {
+                if rec.verif_extent_has_readers() { o = "blocked".into(); } else { w = 4; o = "freed".into(); }
+            }
+            _ => { content = "reused"; }
+        }
+        if ev == "reuse" && rng.chance(1, 2) {
+            let word = rec.verif_extent_word();
+            out.emit(format!("pin {}", ev), format!("ok r={} b={} out={}", word & 0x7fff_ffff, word >> 31, o));
+            break;
+        }
+        let word = rec.verif_extent_word();
+        out.count(&format!("word {}", ev));
+        out.emit(format!("pin {}", ev), format!("ok r={} b={} out={}", word & 0x7fff_ffff, word >> 31, o));
+    }
+    // balance the forgotten guards so the record drops cleanly
+    for _ in 0..(pins + reading) { rec.verif_extent_release(); }
+}
+
+// ---------------------------------------------------------------- C08: readers racing with retirement
+
+struct WriteLog {
+    enabled: std::sync::atomic::AtomicBool,
+    writes: Mutex<Vec<(u64, usize)>>,
+    /// retirements postponed because readers were inside the extent: sectors
+    blocked: Mutex<Vec<u64>>,
+}
+
+impl feoxdb::verif::proto::Observer for WriteLog {
+    fn event(&self, kind: feoxdb::verif::proto::Kind, a: u64, _b: u64, _key: &[u8], _ts: u64) {
+        if kind == feoxdb::verif::proto::Kind::RetireBlocked && self.enabled.load(std::sync::atomic::Ordering::SeqCst) {
+            self.blocked.lock().unwrap().push(a);
+        }
+    }
+}
+
+impl feoxdb::verif::io::Observer for WriteLog {
+    fn event(&self, kind: feoxdb::verif::io::Kind, _fd: i32, sector: u64, len: usize, data: &[u8]) -> feoxdb::verif::io::Decision {
+        use feoxdb::verif::io::Kind as K;
+        if self.enabled.load(std::sync::atomic::Ordering::SeqCst) && matches!(kind, K::Write | K::RingWrite) {
+            self.writes.lock().unwrap().push((sector, len.max(data.len())));
+        }
+        feoxdb::verif::io::Decision::Proceed
+    }
+}
+
+fn pattern(tag: u8, len: usize) -> Vec<u8> {
+    (0..len).map(|i| tag ^ (i as u8).wrapping_mul(31)).collect()
+}
+
+fn with_watchdog<F: FnOnce() + Send + 'static>(f: F) -> bool {
+    let t0 = Instant::now();
+    let j = std::thread::spawn(f);
+    while !j.is_finished() && t0.elapsed() < WATCHDOG {
+        std::thread::sleep(Duration::from_millis(1));
+    }
+    if j.is_finished() { let _ = j.join(); true } else { false }
+}
+
+/// one reader parked before / inside its device read while the key is rewritten or deleted,
+/// its old extent retired and the freed blocks reused by other keys
+fn race_case(rng: &mut Rng, out: &mut Out, ctl: &Arc<Ctl>, wl: &Arc<WriteLog>, dir: &str, idx: u64) {
+    use std::sync::atomic::Ordering as O;
+    feoxdb::verif::clock::unpin();
+    let cache = rng.chance(1, 2);
+    let blocks = rng.range(30, 44);
+    let path = format!("{}/race{}.feox", dir, idx);
+    let _ = std::fs::remove_file(&path);
+    let store = match FeoxStore::builder().hash_bits(6).enable_ttl(false).no_memory_limit()
+        .device_path(path.clone()).file_size(blocks * BS).enable_caching(cache).build() {
+        Ok(s) => Arc::new(s),
+        Err(_) => return,
+    };
+    let key = format!("victim-{}", idx).into_bytes();
+    let l1 = *rng.pick(&[100usize, 3000, 9000]);
+    let v1 = pattern(0x11, l1);
+    let v2 = pattern(0x22, *rng.pick(&[100usize, 3000, 9000]));
+    if store.insert(&key, &v1).is_err() || store.flush().is_err() { return; }
+    let snap = store.verif_snapshot();
+    let Some(r1) = snap.iter().find(|r| r.key == key) else { return };
+    let (s1, n1) = (r1.sector, (l1 as u64 + 200).div_ceil(BS));
+    if s1 == 0 || r1.resident { out.count("race skipped (value still resident)"); return; }
+    {
+        let mut g = ctl.slots.lock().unwrap();
+        g.clear();
+        g.push(Slot { phase: Phase::Idle, permit: false, cmd: None, exit: false });
+    }
+    let h = { let c = ctl.clone(); let st = store.clone(); std::thread::spawn(move || worker(0, c, st)) };
+    let pinned_mode = rng.chance(1, 2);
+    let delete = rng.chance(1, 3);
+    let reader = match rng.below(3) { 0 => Op::Get { bytes: false }, 1 => Op::Get { bytes: true }, _ => Op::Cas { exp: Val { kind: Kind::Raw, n: 0 }, new: Val { kind: Kind::Raw, n: 1 }, ts: None } };
+    out.count(if pinned_mode { "race reader parked holding the pin" } else { "race reader parked before the pin" });
+    out.count(&format!("race reader {}", reader.line().split(' ').next().unwrap()));
+    let mut bad: Option<String> = None;
+    let mut ph = ctl.call(0, reader.clone(), key.clone());
+    if pinned_mode {
+        if let Some(Phase::AtPoint("read_start")) = ph { ph = ctl.resume(0); }
+    }
+    let parked = matches!(ph, Some(Phase::AtPoint(_)));
+    wl.writes.lock().unwrap().clear();
+    wl.blocked.lock().unwrap().clear();
+    wl.enabled.store(true, O::SeqCst);
+    // the writer side (this thread is not under the controller)
+    let r = if delete { store.delete(&key).map(|_| ()) } else { store.insert(&key, &v2).map(|_| ()) };
+    let mutated = r.is_ok();
+    let mut fillers = vec![];
+    for i in 0..rng.range(1, 4) {
+        let k = format!("filler-{}-{}", idx, i).into_bytes();
+        let v = pattern(0x40 + i as u8, *rng.pick(&[100usize, 5000, 9000]));
+        if store.insert(&k, &v).is_ok() { fillers.push((k, v)); }
+    }
+    if parked && pinned_mode {
+        // the background flusher keeps trying to retire the pinned extent
+        std::thread::sleep(Duration::from_millis(rng.range(150, 400)));
+        if wl.blocked.lock().unwrap().contains(&s1) { out.count("race retirement postponed by the pin"); }
+        let hit: Vec<(u64, usize)> = wl.writes.lock().unwrap().iter().cloned().filter(|(s, l)| *s < s1 + n1 && s1 < *s + (*l as u64).div_ceil(BS).max(1)).collect();
+        if !hit.is_empty() {
+            bad = Some(format!("device writes {:?} landed in the extent {}+{} of a generation while a reader held its pin", hit, s1, n1));
+        }
+    } else if parked {
+        // nobody holds a pin: flush completes, the old extent is retired and its blocks reused
+        let st = store.clone();
+        if !with_watchdog(move || { let _ = st.flush(); }) {
+            out.failures.push("C18\tflush() did not return while a reader was parked before taking its pin\t-".into());
+        }
+        for i in 0..2 {
+            let k = format!("filler2-{}-{}", idx, i).into_bytes();
+            let v = pattern(0x60 + i as u8, 9000);
+            if store.insert(&k, &v).is_ok() { fillers.push((k, v)); }
+        }
+        let st = store.clone();
+        let _ = with_watchdog(move || { let _ = st.flush(); });
+    }
+    wl.enabled.store(false, O::SeqCst);
+    // let the reader finish
+    let mut guard = 0;
+    while let Some(Phase::AtPoint(_)) = ph {
+        ph = ctl.resume(0);
+        guard += 1;
+        if guard > 64 { break; }
+    }
+    match ph {
+        Some(Phase::Returned(res)) => {
+            ctl.consume(0);
+            out.count(&format!("race result {}", res.split(' ').next().unwrap()));
+            // genuine answers only
+            let want1 = format!("value unknown {}", hex(&v1));
+            let want2 = format!("value unknown {}", hex(&v2));
+            let ok = match &reader {
+                Op::Cas { .. } => res == "notSwapped",
+                _ => res == want1 || (mutated && !delete && res == want2) || (mutated && delete && res == "notFound") || res == "error StaleExtent",
+            };
+            if !ok && bad.is_none() {
+                bad = Some(format!("a read racing with {} returned `{}` — neither the old nor the new value of the key", if delete { "delete" } else { "update" }, &res[..res.len().min(80)]));
+            }
+        }
+        _ => out.failures.push("C18\ta reader parked in its device read never returned after being released\t-".into()),
+    }
+    {
+        let mut g = ctl.slots.lock().unwrap();
+        g[0].exit = true;
+        ctl.cv.notify_all();
+    }
+    let _ = h.join();
+    let st = store.clone();
+    if !with_watchdog(move || { let _ = st.flush(); }) {
+        out.failures.push("C18\tflush() after a read/retirement race did not return\t-".into());
+    }
+    // everything else is intact
+    for (k, v) in &fillers {
+        match store.get(k) {
+            Ok(got) if &got == v => {}
+            other => { if bad.is_none() { bad = Some(format!("filler key {} reads {:?} after the race", hex(k), other.map(|x| x.len()))); } }
+        }
+    }
+    let fin = store.get(&key);
+    let fin_ok = match (&fin, mutated, delete) {
+        (Ok(v), true, false) => v == &v2,
+        (Err(FeoxError::KeyNotFound), true, true) => true,
+        (Ok(v), false, _) => v == &v1,
+        _ => false,
+    };
+    if !fin_ok && bad.is_none() {
+        bad = Some(format!("after the race the key reads {:?}", fin.map(|x| x.len())));
+    }
+    out.count("race case");
+    if let Some(b) = bad {
+        let keep = format!("{}/race{}_fail.txt", dir, idx);
+        std::fs::write(&keep, format!("seed-case {} cache={} blocks={} l1={} pinned_mode={} delete={} reader={}\n{}\n", idx, cache, blocks, l1, pinned_mode, delete, reader.line(), b)).unwrap();
+        out.failures.push(format!("C08\t{}\t{}", b, keep));
+    }
+    drop(store);
+    let _ = std::fs::remove_file(&path);
+}
+
 fn main() {
     let args = parse_args();
     std::fs::create_dir_all(&args.out).unwrap();
@@ -557,6 +778,15 @@ fn main() {
     let mut rng = Rng::new(args.seed);
     let get = |k: &str, d: u64| -> u64 { args.extra.iter().find_map(|e| e.strip_prefix(&format!("{}=", k)).map(|v| v.parse().unwrap())).unwrap_or(d) };
     let cases = get("cases", 200);
+    let wl = Arc::new(WriteLog { enabled: std::sync::atomic::AtomicBool::new(false), writes: Mutex::new(vec![]), blocked: Mutex::new(vec![]) });
+    feoxdb::verif::io::set_observer(Some(wl.clone()));
+    feoxdb::verif::proto::set_observer(Some(wl.clone()));
+    for _ in 0..get("words", 0) {
+        word_run(&mut rng, &mut out);
+    }
+    for i in 0..get("races", 0) {
+        race_case(&mut rng, &mut out, &ctl, &wl, &args.out, i);
+    }
     if let Some(f) = &args.replay {
         let lines: Vec<String> = std::fs::read_to_string(f).unwrap().lines().filter(|l| l.starts_with("conc ")).map(|l| l.to_string()).collect();
         if !lines.is_empty() {
